@@ -1125,6 +1125,18 @@ class Printer:
         t = s[0]
         if self.layout == "comments":
             self.emit(pad + "// c")
+        if getattr(self, "skip_noise_once", False):
+            self.skip_noise_once = False
+        elif self.layout == "noisy":
+            # tokens and expressions that contain line breaks, in front of every statement: later line numbers must still be true
+            self.noise = getattr(self, "noise", 0) + 1
+            k = self.noise
+            if t != "import" and not getattr(self, "no_noise_stmts", False):
+                self.emit(pad + "let nz%da = 'raw\nline\nbreaks';" % k)
+                self.emit(pad + "let nz%db = [1,\n" % k + pad + "  2,\n\n" + pad + "  3];")
+                self.emit(pad + "let nz%dc = 'x${\n" % k + pad + "  nz%db.len()\n" % k + pad + "}y' +\n" + pad + "  'z';")
+            self.emit("")
+            self.emit(pad + "// noise")
         typed = self.layout == "typed"
         if t == "let":
             ann = ""
@@ -1205,6 +1217,7 @@ class Printer:
             self.emit(pad + "raise " + self.top(s[1]) + ";", s)
         elif t == "export":
             n = len(self.out)
+            self.skip_noise_once = True
             self.stmt(s[1], ind)
             self.out[n] = pad + "export " + self.out[n].lstrip()
             self.marks.append(id(s))
